@@ -10,6 +10,8 @@ fn main() {
     let seed: u64 = std::env::var("VERIF_SEED").ok().and_then(|s| s.parse().ok()).unwrap_or(0);
     let rest: Vec<String> = args[2..].to_vec();
     let out: Vec<String> = match args[1].as_str() {
+        "c11_accept" => profirust::fdl::__verif_native_active::c11_accept(&rest, seed),
+        "c15_sched" => profirust::fdl::__verif_native_active::c15_sched(&rest, seed),
         "c12_gap" => profirust::fdl::__verif_native_active::c12_gap(&rest, seed),
         "c10_decode" => profirust::fdl::__verif_native_telegram::c10_decode(&rest, seed),
         "c10_first_byte" => profirust::fdl::__verif_native_telegram::c10_first_byte(&rest, seed),
